@@ -1,5 +1,6 @@
 import RedisVerif.Driver.Codec
-import RedisVerif.Model.Grammar
+import RedisVerif.Model.GrammarTable
+import RedisVerif.Model.LuaConv
 
 /-
   C16 sub-driver (pure).  One line in, one line out:
